@@ -33,9 +33,9 @@ MIN_EVALS = {c: {'quick': 200, 'thorough': 5000} for c in _PER + ('seidel-sums',
 MIN_EVALS.update({
     'TCC=3CC': {'quick': 400, 'thorough': 10000},
     "longitudinal=-transverse/u'": {'quick': 1600, 'thorough': 40000},
-    'sum-is-sum': {'quick': 4000, 'thorough': 100000},
+    'sum-is-sum': {'quick': 3000, 'thorough': 100000},
     'accessor-vs-third_order': {'quick': 2500, 'thorough': 60000},
-    'operand-vs-accessor': {'quick': 5000, 'thorough': 120000},
+    'operand-vs-accessor': {'quick': 3000, 'thorough': 100000},
     'stop-shift-invariance': {'quick': 200, 'thorough': 6000},
     'real-ray-limit': {'quick': 60, 'thorough': 2000},
 })
@@ -252,12 +252,19 @@ def check_case(case, rec):
             rec.close("longitudinal=-transverse/u'", src[lo] * (-uK), src[tr], 1e-12, scale=relscale(src[tr]),
                       msg=f'{tag}{lo} is not -{tr}/u\'_K (final marginal slope)')
     nK = float(inp['n'][-1])
-    sums = {}
-    for nm in NAMES:
-        sums[nm] = float(np.ravel(getattr(AO, nm + '_sum')(lens))[0])
+    # every call recomputes the paraxial rays (~10 ms): per case half of the twelve families are probed
+    # through their per-surface operand and the other half through their *_sum operand (alternating with
+    # the parity of the case), so that every operand is exercised in about half of the cases
+    parity = (K + len(spec['wavelengths']) + len(spec['fields'])) % 2
+    for j, nm in enumerate(NAMES):
+        if j % 2 == parity:
+            continue
+        v = float(np.ravel(getattr(AO, nm + '_sum')(lens))[0])
         ssc = max(1e-300, float(np.sum(np.abs(acc[nm]))))
-        rec.close('sum-is-sum', sums[nm], math.fsum(acc[nm]), 1e-12, scale=ssc,
+        rec.close('sum-is-sum', v, math.fsum(acc[nm]), 1e-12, scale=ssc,
                   msg=f'{nm}_sum is not the sum of the per-surface {nm} terms')
+        rec.close('operand-vs-accessor', v, float(np.sum(acc[nm])), 1e-12, scale=ssc,
+                  msg=f'AberrationOperand.{nm}_sum(optic) is not the sum of {nm}()')
     for j, nm in enumerate(SE.LONG):
         ssc = max(1e-300, 2 * abs(nK * uK) * float(np.sum(np.abs(acc[nm]))))
         for src, tag in ((acc, 'seidels()'), (T, 'third_order()')):
@@ -267,13 +274,12 @@ def check_case(case, rec):
         rec.close('accessor-vs-third_order', acc[nm], T[nm], 1e-13, scale=relscale(acc[nm], T[nm]),
                   msg=f'{nm}() disagrees with the corresponding slice of third_order()')
     for j, nm in enumerate(NAMES):
+        if j % 2 != parity:
+            continue
         for k in sorted({(7 * j + K) % K, (K - 1) if j % 4 == 0 else (7 * j + K) % K}):
             v = float(np.ravel(getattr(AO, nm)(lens, k))[0])
             rec.close('operand-vs-accessor', v, acc[nm][k], 1e-13, scale=float(relscale(acc[nm])[k]),
                       msg=f'AberrationOperand.{nm}(optic, k) is not {nm}()[k]')
-        rec.close('operand-vs-accessor', sums[nm], float(np.sum(acc[nm])), 1e-12,
-                  scale=max(1e-300, float(np.sum(np.abs(acc[nm])))),
-                  msg=f'AberrationOperand.{nm}_sum(optic) is not the sum of {nm}()')
     for j in range(1, 6):
         v = float(np.ravel(AO.seidels(lens, j))[0])
         rec.close('operand-vs-accessor', v, acc['S'][j - 1], 1e-13, scale=float(relscale(acc['S'])[j - 1]),
